@@ -27,7 +27,7 @@ ANCHORS = ['errors:WrongTypeError.print_error', 'errors:WrongLenError.print_erro
            'errors:ErrorNode.__str__', 'errors:ConvertError.__str__']
 MIN_COUNTERS = {'quick': {'trees_rendered': 25000, 'fused_chains': 1500, 'nested_sums': 150, 'causes_checked': 1500,
                           'missing_names': 2000, 'extra_names': 2000, 'duplicate_nodes': 500, 'wronglen_nodes': 300,
-                          'mixed_kind_extras': 100}}
+                          'mixed_kind_extras': 100, 'unprintable_value_messages': 20}}
 
 E = env.m_errors
 
